@@ -68,3 +68,33 @@ Definition resolve_ok (t g : utree) : option string :=
        then Some "an added branch has a non-zero length or a support"
   else if negb (matrix_eqb (dist_matrix len0 t) (dist_matrix len0 g)) then Some "a tip-to-tip distance changed"
   else None.
+
+(** ** the option --tips ("applies also to external branches, just by setting their length to 0.0"):
+    the criterion read on a tip branch; a tip has depth 1; there is no --tips for supports *)
+Definition tip_crit (cr : crit) (e : einfo) : bool :=
+  match cr with
+  | CLen l => Qle_bool (elen e) l
+  | CSup _ => false
+  | CDepth mn mx => (mn <=? 1)%Z && (1 <=? mx)%Z
+  end.
+
+(** the input tree with the qualifying tip branches set to length 0 *)
+Fixpoint zero_tips (cr : crit) (t : utree) : utree :=
+  match t with
+  | UNode n c sl =>
+    UNode n c (map (fun s => match s with
+                             | None => None
+                             | Some (e, ch) =>
+                               Some ((match kids ch with
+                                      | [] => if tip_crit cr e then mkE 0%Q (esup e) (epv e) (ecom e) else e
+                                      | _ => e end), zero_tips cr ch)
+                             end) sl)
+  end.
+
+(** removeTips = true, removeRoot = false: as [collapse_ok], and every tip branch satisfying the
+    criterion (also one attached to the root of a rooted tree) has length 0 *)
+Definition collapse_ok_tips (cr : crit) (t g : utree) : option string :=
+  match collapse_ok cr (zero_tips cr t) g with
+  | Some m => Some ("with --tips: " ++ m)
+  | None => None
+  end.
